@@ -25,15 +25,20 @@ CONSTANTS DocInit,      \* key -> JSON text of the value, from the `mockery init
 None == "-"
 
 (* ------------------------------------------------------------------ a. *)
-\* presence of the target path:  "yes" (lstat and stat both find something), "no" (nothing there),
-\* "ambiguous" (a dangling symbolic link: lstat finds a link, stat finds nothing -- the statement does
-\* not say whether that counts as an existing file, so both outcomes are acceptable there).
+\* presence of the target path: "yes" when lstat finds anything there -- a file, a directory, a symbolic link
+\* even when it dangles: something exists at the path, so it is never modified and failure is reported --
+\* "no" when nothing is there.
 \* parentOK: the directory the target path lies in exists.  When it does not, the statement does not
 \* demand that init creates it: failing without creating anything and succeeding are both acceptable.
 InitAllowed(presence, parentOK) ==
   IF presence = "yes" THEN {[ok |-> FALSE, after |-> "same"]}
-  ELSE IF presence = "no" /\ parentOK THEN {[ok |-> TRUE, after |-> "created"]}
+  ELSE IF parentOK THEN {[ok |-> TRUE, after |-> "created"]}
   ELSE {[ok |-> TRUE, after |-> "created"], [ok |-> FALSE, after |-> "same"]}
+
+\* Concurrent inits on one target path are a history too: whichever comes second finds the file existing.
+\* oks: how many of the concurrent commands reported success.  On an absent target (parent present) exactly
+\* one does, and the file that survives is the one that command wrote (checked by the load that follows).
+RaceAllowed(presence, oks) == IF presence = "yes" THEN oks = 0 ELSE oks = 1
 
 (* ------------------------------------------------------------- b, c, d. *)
 \* What loading the file written by `init by` must yield (by = None: the content was not written by init,
